@@ -631,7 +631,7 @@ func C17(tier string) int {
 	}
 	add(c17Job{Part: "seq-local", N: nLocal}, false)
 	add(c17Job{Part: "seq-remote", N: nRemote}, false)
-	add(c17Job{Part: "failopen"}, false)
+	add(c17Job{Part: "failopen"}, true) // with the real mmap: a leaked mapping keeps a flock alive
 	// every program of depthRO calls from the read-only alphabet, on each seed state
 	var progs [][]int
 	var gen func(p []int)
